@@ -995,6 +995,8 @@ class Interp:
                 return Int(x & y, a.bits, s)
             if op == "BitOr":
                 return Int(x | y, a.bits, s)
+            if op == "BitXor":
+                return Int(x ^ y, a.bits, s)
             if op == "AddWithOverflow":
                 if s:
                     r = x + y
